@@ -29,6 +29,7 @@ type c13Resp struct {
 	ra     string // raw Retry-After header ("" = absent)
 	raDesc string // protocol form: - | secs N | date NS | junk
 	redir  int    // redirect status for kind redir
+	pad    int    // extra body bytes (large but well-formed replies); not part of the model's view
 }
 
 type c13Transport struct {
@@ -37,6 +38,7 @@ type c13Transport struct {
 	pos    int
 	times  []time.Time // virtual instant of every POST that reached the transport
 	served []c13Resp
+	bodies []string    // the body served with every response ("" for transport errors)
 	cancel func()      // ends the caller's context when the client turns into a retry storm
 	storm  bool
 }
@@ -67,6 +69,21 @@ func (t *c13Transport) RoundTrip(req *http.Request) (*http.Response, error) {
 	}
 	t.times = append(t.times, time.Now())
 	t.served = append(t.served, r)
+	body := ""
+	switch r.kind {
+	case "ok":
+		body = `{"v":7}`
+		if r.pad > 0 {
+			body = `{"pad":"` + strings.Repeat("A", r.pad) + `","v":7}`
+		}
+	case "junk":
+		body = `{"v":`
+	case "redir":
+		body = `{"v":7}` // what the redirect target answers (reached for 307/308 only)
+	case "st":
+		body = "body-of-" + fmt.Sprint(r.status) + strings.Repeat("B", r.pad)
+	}
+	t.bodies = append(t.bodies, body)
 	switch r.kind {
 	case "neterr":
 		return nil, errors.New("verif: connection reset")
@@ -80,20 +97,18 @@ func (t *c13Transport) RoundTrip(req *http.Request) (*http.Response, error) {
 		// what http.Client.Timeout / a dial timeout look like: a transport error that *wraps* context.DeadlineExceeded
 		// although the caller's context is alive
 		return nil, fmt.Errorf("verif: per-attempt timeout: %w", context.DeadlineExceeded)
-	case "ok":
-		return mk(200, `{"v":7}`, nil), nil
-	case "junk":
-		return mk(200, `{"v":`, nil), nil
+	case "ok", "junk":
+		return mk(200, body, nil), nil
 	case "redir":
 		h := http.Header{}
 		h.Set("Location", "/redirected")
-		return mk(r.redir, "", h), nil
+		return mk(r.redir, "", h), nil // (t.bodies holds the target's body, see above)
 	default:
 		h := http.Header{}
 		if r.ra != "" {
 			h.Set("Retry-After", r.ra)
 		}
-		return mk(r.status, "body-of-"+fmt.Sprint(r.status), h), nil
+		return mk(r.status, body, h), nil
 	}
 }
 
@@ -199,6 +214,10 @@ func TestVerifC13(t *testing.T) {
 				if e.raDesc == "" {
 					e.raDesc = "-"
 				}
+				if (e.kind == "ok" || e.kind == "st") && rr.Intn(6) == 0 {
+					// a large, perfectly well-formed reply (an SCT may carry 65535 bytes of extensions: ~87 kB of base64)
+					e.pad = []int{4000, 65520, 65536, 70000, 100000, 1 << 20}[rr.Intn(6)]
+				}
 				script = append(script, e)
 			}
 			if rr.Intn(3) != 0 {
@@ -236,7 +255,12 @@ func TestVerifC13(t *testing.T) {
 					k = fmt.Sprintf("redir %d", e.redir)
 				}
 				out.T(fmt.Sprintf("req %d %s", tr.times[i].UnixNano(), k), "go")
-				desc += k + ";"
+				if e.pad > 0 {
+					desc += fmt.Sprintf("%s pad=%d;", k, e.pad)
+					out.Count("class:large-body")
+				} else {
+					desc += k + ";"
+				}
 			}
 			outcome := ""
 			var re RspError
@@ -330,14 +354,14 @@ func TestVerifC13(t *testing.T) {
 					case success(e):
 						if outcome != "ok" {
 							out.Fail(key, "a parsable 200 was not returned as success: "+outcome)
-						} else if rsp.V != 7 || hr == nil || hr.StatusCode != 200 || len(body) == 0 {
-							out.Fail(key, "success without the parsed body / response")
+						} else if rsp.V != 7 || hr == nil || hr.StatusCode != 200 || string(body) != tr.bodies[i] {
+							out.Fail(key, fmt.Sprintf("success without the parsed body / response (body %d bytes, served %d)", len(body), len(tr.bodies[i])))
 						}
 					case retryable(e):
 						out.Fail(key, "returned "+outcome+" after a retryable response without the context ending")
 					default:
-						if outcome != fmt.Sprintf("err %d", e.status) || string(re.Body) != "body-of-"+fmt.Sprint(e.status) {
-							out.Fail(key, fmt.Sprintf("status %d returned as %q body %q", e.status, outcome, re.Body))
+						if outcome != fmt.Sprintf("err %d", e.status) || string(re.Body) != tr.bodies[i] {
+							out.Fail(key, fmt.Sprintf("status %d returned as %q with a body of %d bytes (served %d)", e.status, outcome, len(re.Body), len(tr.bodies[i])))
 						}
 					}
 				}
